@@ -1,4 +1,4 @@
 ---- MODULE MCGenGraph ----
 EXTENDS GenGraph
-MCPos == {"whilecond", "ternary", "switchcase", "assign", "stmt"}
+MCPos == {"binop_rhs", "cmp_rhs", "stmt", "assign"}
 ====
